@@ -8,17 +8,26 @@ from .run_scn import DEV, MOT
 
 # ---------------------------------------------------------------------------------------------------------- C11
 class C11(Mon):
-    """phases of one suspension: None -> 'requested' (state moved to suspending) -> 'started' (_start_suspender handled: pre-plan + wait)
-    -> 'released' (the condition was released: post-plan, then rewind) -> None (first replayed / plan message after the post-plan)"""
-    fields = ("phase", "moved", "stopped_after_move", "release_seen", "post_done")
+    """phases of the suspension protocol: None -> 'requested' (state moved to suspending) -> 'started' (_start_suspender handled: pre-plan + wait)
+    -> 'released' (the condition was released: post-plan, then rewind) -> None (first replayed / plan message after the post-plan).
+    Suspensions may nest (a second one is requested while the helper plan of the first is stacked): `records` holds one entry per suspension
+    in effect - (condition, post-plan, 'started' | 'released') in the order their _start_suspender was executed; the innermost one runs first."""
+    fields = ("phase", "moved", "stopped_after_move", "in_effect")
+    BOOKKEEPING = ("rewindable", "wait_for", "_resume_from_suspender", "_start_suspender")
+    P0 = f"{REQ}.request_suspend#ensures[once a suspension has taken effect the next message executed is the suspender's own, not the plan's]"
+    P1 = f"{REQ}._start_suspender#ensures[the plan stays held until the suspender's condition is released]"
+    P1B = f"{REQ}._start_suspender#ensures[while suspended only the suspender's pre-plan runs: no message of the plan, none replayed]"
+    P1O = (f"{REQ}._start_suspender#ensures[overlapping suspensions: no message of the plan runs, none is replayed, until the condition of every suspension "
+           "in effect has been released]")
+    P1C = f"{REQ}._start_suspender#ensures[the suspender's pre-plan has run to its end when the engine starts to wait for the condition]"
+    P3 = f"{REQ}._start_suspender#ensures[after the release the post-plan runs to its end before the plan is rewound and continues]"
 
     def __init__(self, sc, tr):
         self.sc, self.tr, self.I, self.w, self.eng = sc, tr, sc.I, sc.w, sc.eng
         self.phase = None
+        self.records = ()                # suspensions in effect: [condition, post-plan, state]
         self.moved = False               # the motor was set during this call
         self.stopped_after_move = True   # ... and told to stop after its last set
-        self.release_seen = False
-        self.post_done = False
         self.eng.ghost.setdefault("on_transition", []).append(self.on_transition)
         sc.I.setattr(sc.re, "msg_hook", native(lambda I_, a, k: self.eng.event("msg", a[0])))
 
@@ -30,58 +39,102 @@ class C11(Mon):
         tr = self.tr
         return not tr.term_requested and not (tr.interrupters - {"suspend"}) and not tr.failed_pause and not tr.nonresumable_seen
 
+    @staticmethod
+    def released(c):
+        return c is not None and bool(getattr(c, "fired", False) or c.value)
+
+    @property
+    def in_effect(self):
+        return tuple((getattr(c, "label", None), self.released(c), getattr(post, "done", None), st, getattr(pre, "done", None)) for c, post, st, pre in self.records)
+
+    @staticmethod
+    def condition_of(m):
+        """the condition (model event) whose wait was given to request_suspend, from the _start_suspender message"""
+        fut = m.args[3] if len(m.args) > 3 else None
+        obj = getattr(fut, "obj", None)
+        return obj.attrs.get("$model") if isinstance(obj, Opaque) else None
+
+    def suspended(self, m, info):
+        """a message executed while at least one suspension is in effect (phase 'started' / 'released')"""
+        w, sc, cmd = self.w, self.sc, m.command
+        info = dict(info, message=cmd, in_effect=[getattr(r[0], "label", None) for r in self.records], **getattr(sc, "info", {}))
+        if cmd == "_start_suspender":
+            # (also an overlapping one: it is stacked on top and completes first)
+            # the pre / post plans are those REQUESTED together with this condition (the roles as the environment gave them to request_suspend,
+            # not as the message happens to carry them); several requests may share a condition: they start in some order, any match will do
+            c = self.condition_of(m)
+            cands = [r for r in getattr(sc, "suspensions", []) if not r["started"] and r["cond"] is c]
+            mine = [r for r in cands if r["pre"] is not None and any(a is r["pre"] or a is r["post"] for a in m.args[:2])]
+            req = (mine or cands or [None])[0]
+            if req is not None:
+                req["started"] = True
+                pre, post = req["pre"], req["post"]
+            else:
+                pre, post = (m.args[0] if m.args else None), (m.args[1] if len(m.args) > 1 else None)
+            self.records = self.records + ((c, post, "started", pre),)
+            self.phase = "started"
+            return
+        if cmd == "_resume_from_suspender":
+            idx = [i for i, r in enumerate(self.records) if r[2] == "started"]
+            if idx:
+                i = idx[-1]              # stack discipline: the innermost suspension still waiting
+                c, post, _, pre = self.records[i]
+                if self.clean():
+                    w.check(self.P1, self.released(c), dict(info, condition=getattr(c, "label", None)))
+                    w.ok(self.P1B)
+                    w.ok(f"{REQ}.__call__#ensures[control does not return to the caller while the plan is suspended]")
+                self.records = self.records[:i] + ((c, post, "released", pre),) + self.records[i + 1:]
+            self.phase = "started" if any(r[2] == "started" for r in self.records) else "released"
+            return
+        post_of = next((p for p in sc.post_plans if m is p.last_msg), None)
+        if post_of is not None:
+            # a post-plan's message: only after the condition of its own suspension was released
+            rec = next((r for r in self.records if r[1] is post_of), None)
+            if rec is not None and self.clean():
+                w.check(self.P1B, self.released(rec[0]), dict(info, note="a post-plan message before the condition of its suspension was released"))
+            return
+        if cmd == "wait_for":
+            waiting = [r for r in self.records if r[2] == "started"]
+            if waiting and hasattr(waiting[-1][3], "done") and self.clean():
+                w.check(self.P1C, waiting[-1][3].done, info)
+            return
+        if cmd == "rewindable" or any(m is p.last_msg for p in sc.pre_plans):
+            return
+        # a message of the plan, or a replayed one
+        if self.clean():
+            if any(r[2] == "started" for r in self.records):
+                w.check(self.P1B, False, info)
+            held = [getattr(r[0], "label", None) for r in self.records if not self.released(r[0])]
+            w.check(self.P1O, not held, dict(info, unreleased=held))
+            if all(r[2] == "released" for r in self.records):
+                posts = [r[1] for r in self.records if r[1] is not None and hasattr(r[1], "done")]
+                if posts:
+                    # the first replayed / plan message after the suspension(s): every post-plan must be over by now
+                    w.check(self.P3, all(p.done for p in posts), info)
+        self.records = ()
+        self.phase = None
+
     def __call__(self, kind, *a):
         w, sc, I = self.w, self.sc, self.I
-        info = {"requests": list(sc.requests), "replay": "lifecycle.replay", "phase": self.phase}
+        info = {"requests": list(sc.requests), "replay": "lifecycle.replay", "phase": self.phase, **getattr(sc, "info", {})}
         if kind == "call" and a[0] == "__call__":
             self.phase, self.moved, self.stopped_after_move = None, False, True
+            self.records = ()
             return
         if kind == "dev-set":
             self.moved, self.stopped_after_move = True, False
         elif kind == "dev-stop":
             self.stopped_after_move = True
-        elif kind == "release":
-            self.release_seen = True
-        elif kind == "suspend-requested" and a[0]:
-            self.release_seen = False        # a new condition: it has not been released yet
         elif kind == "msg":
             m = a[0]
             cmd = m.command
             if self.phase == "requested":
                 if self.clean():
-                    w.check(f"{REQ}.request_suspend#ensures[once a suspension has taken effect the next message executed is the suspender's own, not the plan's]",
-                            cmd == "_start_suspender", dict(info, message=cmd))
+                    w.check(self.P0, cmd == "_start_suspender", dict(info, message=cmd))
                 if cmd == "_start_suspender":
-                    self.phase, self.post_done = "started", False
-                    self.cur_post = m.args[1] if len(m.args) > 1 else None
-            elif self.phase == "started":
-                ok_cmds = ("rewindable", "wait_for", "_resume_from_suspender", "_start_suspender")
-                from_pre = any(m is p.last_msg for p in sc.pre_plans)
-                if cmd == "_start_suspender":
-                    # an overlapping suspension: it is stacked on top and completes first (its post-plan is the next one to run)
-                    self.cur_post = m.args[1] if len(m.args) > 1 else None
-                if cmd == "_resume_from_suspender":
-                    if self.clean():
-                        w.check(f"{REQ}._start_suspender#ensures[the plan stays held until the suspender's condition is released]", self.release_seen, info)
-                        w.ok(f"{REQ}._start_suspender#ensures[while suspended only the suspender's pre-plan runs: no message of the plan, none replayed]")
-                        w.ok(f"{REQ}.__call__#ensures[control does not return to the caller while the plan is suspended]")
-                    self.phase = "released"
-                elif not (cmd in ok_cmds or from_pre) and self.clean():
-                    w.check(f"{REQ}._start_suspender#ensures[while suspended only the suspender's pre-plan runs: no message of the plan, none replayed]", False,
-                            dict(info, message=cmd))
-            elif self.phase == "released":
-                from_post = any(m is p.last_msg for p in sc.post_plans)
-                if cmd == "rewindable" or from_post or cmd == "_start_suspender":
-                    pass
-                else:
-                    # the first replayed / plan message after the suspension: the post-plan must be over by now
-                    post = getattr(self, "cur_post", None)
-                    if post is not None and hasattr(post, "done") and self.clean():
-                        w.check(f"{REQ}._start_suspender#ensures[after the release the post-plan runs to its end before the plan is rewound and continues]",
-                                post.done, dict(info, message=cmd))
-                    self.phase = None
-        elif kind == "handler-done-start-suspender":
-            pass
+                    self.suspended(m, info)
+            elif self.phase in ("started", "released"):
+                self.suspended(m, info)
         elif kind == "cut" and self.phase == "started":
             # _start_suspender has run (we are at a scheduling point after it): every moved device was told to stop, interruptions recorded
             if not getattr(self, "_checked_stop", False):
@@ -99,6 +152,7 @@ class C11(Mon):
                         dict(info, call=name, result=repr(r)[:80], state=self.eng.state))
             if self.eng.state == "idle":
                 self.phase = None
+                self.records = ()
         if self.phase != "started":
             self._checked_stop = False
 
